@@ -23,7 +23,7 @@ fn slice_read_atomic<'a, B: SingletonBound>(reads: In<'a>, count: Singleton<usiz
         let snap = use::atomic(count, nondet!(/** verif */));
         batch.cross_singleton(snap).map(q!(|(r, c)| r as u64 * 100 + c as u64))
     }
-    .weakest_ordering()
+    .weaken_ordering::<NoOrder>()
 }
 
 /// One `sliced!` block answering `reads` from an asynchronously snapshotted count.
@@ -33,11 +33,11 @@ fn slice_read_snapshot<'a, B: SingletonBound>(reads: In<'a>, count: Singleton<us
         let snap = use::snapshot(count, nondet!(/** verif */));
         batch.cross_singleton(snap).map(q!(|(r, c)| r as u64 * 100 + c as u64))
     }
-    .weakest_ordering()
+    .weaken_ordering::<NoOrder>()
 }
 
 fn acks<'a>(s: Stream<u32, P<'a>, Unbounded>) -> Out<'a> {
-    s.map(q!(|v| v as u64)).weakest_ordering()
+    s.map(q!(|v| v as u64)).weaken_ordering::<NoOrder>()
 }
 
 // ---- one atomic region consumed by 1, 2, 3 ticks ----------------------------------------------
@@ -86,7 +86,7 @@ pub fn atomic_stream_1<'a>(w: In<'a>) -> Out<'a> {
         let s = use::atomic(c, nondet!(/** verif */));
         b.cross_singleton(s).map(q!(|(v, c)| v as u64 * 100 + c as u64))
     }
-    .weakest_ordering()
+    .weaken_ordering::<NoOrder>()
 }
 
 /// the atomic stream batched by two different ticks
@@ -100,7 +100,7 @@ pub fn atomic_stream_2<'a>(w: In<'a>) -> Out<'a> {
         let b = use::atomic(p, nondet!(/** verif */));
         b.count().into_stream().map(q!(|c| 1000 + c as u64))
     };
-    o1.weakest_ordering().merge_unordered(o2.weakest_ordering())
+    o1.weaken_ordering::<NoOrder>().merge_unordered(o2.weaken_ordering::<NoOrder>())
 }
 
 /// atomic stream in one tick, its count in two more ticks
@@ -111,7 +111,7 @@ pub fn atomic_stream_and_counts<'a>(w: In<'a>, r1: In<'a>, r2: In<'a>) -> Out<'a
         let b = use::atomic(p, nondet!(/** verif */));
         b.map(q!(|v| v as u64))
     };
-    o.weakest_ordering().merge_unordered(slice_read_atomic(r1, c.clone())).merge_unordered(slice_read_atomic(r2, c))
+    o.weaken_ordering::<NoOrder>().merge_unordered(slice_read_atomic(r1, c.clone())).merge_unordered(slice_read_atomic(r2, c))
 }
 
 /// two atomic regions read inside one tick
@@ -124,7 +124,7 @@ pub fn two_regions_one_tick<'a>(w1: In<'a>, w2: In<'a>, r: In<'a>) -> Out<'a> {
         let s2 = use::atomic(c2, nondet!(/** verif */));
         batch.cross_singleton(s1.zip(s2)).map(q!(|(r, (a, b))| r as u64 * 100 + a as u64 * 10 + b as u64))
     }
-    .weakest_ordering()
+    .weaken_ordering::<NoOrder>()
 }
 
 /// two atomic regions, each read by two ticks, one tick reading both
@@ -137,7 +137,7 @@ pub fn two_regions_three_ticks<'a>(w1: In<'a>, w2: In<'a>, r1: In<'a>, r2: In<'a
         let s2 = use::atomic(c2.clone(), nondet!(/** verif */));
         batch.cross_singleton(s1.zip(s2)).map(q!(|(r, (a, b))| r as u64 * 100 + a as u64 * 10 + b as u64))
     };
-    both.weakest_ordering().merge_unordered(slice_read_atomic(r1, c1)).merge_unordered(slice_read_atomic(r2, c2))
+    both.weaken_ordering::<NoOrder>().merge_unordered(slice_read_atomic(r1, c1)).merge_unordered(slice_read_atomic(r2, c2))
 }
 
 /// the counter shape with slice-local state next to the atomic read
@@ -152,7 +152,7 @@ pub fn atomic_count_state<'a>(w: In<'a>, r: In<'a>) -> Out<'a> {
         prev = snap;
         out
     };
-    acks(p.end_atomic()).merge_unordered(o.weakest_ordering())
+    acks(p.end_atomic()).merge_unordered(o.weaken_ordering::<NoOrder>())
 }
 
 /// keyed atomic region (cf. sim_sliced_atomic_keyed_stream), consumed by two ticks
@@ -168,7 +168,7 @@ pub fn atomic_keyed_2<'a>(w: In<'a>) -> Out<'a> {
         let s = use::atomic(sums, nondet!(/** verif */));
         s.entries().map(q!(|(k, sum)| 10_000 + k as u64 * 100 + sum as u64))
     };
-    o1.weakest_ordering().merge_unordered(o2.weakest_ordering())
+    o1.weaken_ordering::<NoOrder>().merge_unordered(o2.weaken_ordering::<NoOrder>())
 }
 
 /// a slice that reads an atomic value of a tick and yields atomically back into it (the shape of
@@ -189,7 +189,7 @@ pub fn yield_atomic_roundtrip<'a>(w: In<'a>, r: In<'a>) -> Out<'a> {
         .zip(doubled.snapshot_atomic(&tick, nondet!(/** verif */)))
         .map(q!(|(a, b)| a as u64 * 1000 + b as u64))
         .all_ticks();
-    in_tick.weakest_ordering().merge_unordered(slice_read_atomic(r, total))
+    in_tick.weaken_ordering::<NoOrder>().merge_unordered(slice_read_atomic(r, total))
 }
 
 /// `across_ticks` (tick -> atomic -> same tick), as in paxos's acceptor_p1
@@ -197,7 +197,7 @@ pub fn across_ticks_max<'a>(w: In<'a>) -> Out<'a> {
     let tick = w.location().tick();
     let batch = w.batch(&tick, nondet!(/** verif */));
     let max = batch.clone().across_ticks(|s| s.max()).into_singleton();
-    batch.cross_singleton(max).map(q!(|(v, m)| v as u64 * 100 + m.unwrap_or(0) as u64)).all_ticks().weakest_ordering()
+    batch.cross_singleton(max).map(q!(|(v, m)| v as u64 * 100 + m.unwrap_or(0) as u64)).all_ticks().weaken_ordering::<NoOrder>()
 }
 
 /// `across_ticks` state plus a second tick reading the same atomic value
@@ -209,7 +209,7 @@ pub fn across_ticks_and_slice<'a>(w: In<'a>, r: In<'a>) -> Out<'a> {
         .cross_singleton(atomic_count.clone().snapshot_atomic(&tick, nondet!(/** verif */)))
         .map(q!(|(v, c)| v as u64 * 100 + c as u64))
         .all_ticks();
-    in_tick.weakest_ordering().merge_unordered(slice_read_atomic(r, atomic_count))
+    in_tick.weaken_ordering::<NoOrder>().merge_unordered(slice_read_atomic(r, atomic_count))
 }
 
 // ---- slices without atomic regions ---------------------------------------------------------------
@@ -243,7 +243,7 @@ pub fn state_and_state_null<'a>(w: In<'a>) -> Out<'a> {
         last = batch.last();
         total.clone().zip(last_or).map(q!(|(t, l)| t * 100 + l as u64)).into_stream()
     }
-    .weakest_ordering()
+    .weaken_ordering::<NoOrder>()
 }
 
 /// a stream carried as slice state (cf. sim_state_source_iter)
@@ -255,14 +255,14 @@ pub fn stream_state<'a>(w: In<'a>) -> Out<'a> {
         items = batch;
         out.map(q!(|v| v as u64))
     }
-    .weakest_ordering()
+    .weaken_ordering::<NoOrder>()
 }
 
 // ---- plain ticks --------------------------------------------------------------------------------------
 
 pub fn tick_count<'a>(w: In<'a>) -> Out<'a> {
     let tick = w.location().tick();
-    w.batch(&tick, nondet!(/** verif */)).count().all_ticks().map(q!(|c| c as u64)).weakest_ordering()
+    w.batch(&tick, nondet!(/** verif */)).count().all_ticks().map(q!(|c| c as u64)).weaken_ordering::<NoOrder>()
 }
 
 pub fn tick_cycle_sum<'a>(w: In<'a>) -> Out<'a> {
@@ -270,7 +270,7 @@ pub fn tick_cycle_sum<'a>(w: In<'a>) -> Out<'a> {
     let (complete, prev) = tick.cycle_with_initial(tick.singleton(q!(0u64)));
     let cur = w.batch(&tick, nondet!(/** verif */)).count().zip(prev).map(q!(|(c, p)| c as u64 + p));
     complete.complete_next_tick(cur.clone());
-    cur.all_ticks().weakest_ordering()
+    cur.all_ticks().weaken_ordering::<NoOrder>()
 }
 
 pub fn tick_cycle_optional<'a>(w: In<'a>) -> Out<'a> {
@@ -279,7 +279,7 @@ pub fn tick_cycle_optional<'a>(w: In<'a>) -> Out<'a> {
     let batch = w.batch(&tick, nondet!(/** verif */));
     let out = batch.clone().cross_singleton(prev.unwrap_or(tick.singleton(q!(0u32)))).map(q!(|(v, p)| v as u64 * 100 + p as u64));
     complete.complete_next_tick(batch.last());
-    out.all_ticks().weakest_ordering()
+    out.all_ticks().weaken_ordering::<NoOrder>()
 }
 
 pub fn tick_cycle_stream<'a>(w: In<'a>) -> Out<'a> {
@@ -288,19 +288,19 @@ pub fn tick_cycle_stream<'a>(w: In<'a>) -> Out<'a> {
     let batch = w.batch(&tick, nondet!(/** verif */));
     let all = held.chain(batch);
     complete.complete_next_tick(all.clone().filter(q!(|v| v % 2 == 1)));
-    all.filter(q!(|v| v % 2 == 0)).all_ticks().map(q!(|v| v as u64)).weakest_ordering()
+    all.filter(q!(|v| v % 2 == 0)).all_ticks().map(q!(|v| v as u64)).weaken_ordering::<NoOrder>()
 }
 
 pub fn tick_defer<'a>(w: In<'a>) -> Out<'a> {
     let tick = w.location().tick();
     let batch = w.batch(&tick, nondet!(/** verif */));
-    batch.clone().defer_tick().chain(batch.map(q!(|v| v + 1000))).all_ticks().map(q!(|v| v as u64)).weakest_ordering()
+    batch.clone().defer_tick().chain(batch.map(q!(|v| v + 1000))).all_ticks().map(q!(|v| v as u64)).weaken_ordering::<NoOrder>()
 }
 
 pub fn tick_batch_and_snapshot<'a>(w: In<'a>, r: In<'a>) -> Out<'a> {
     let tick = w.location().tick();
     let snap = w.count().snapshot(&tick, nondet!(/** verif */));
-    r.batch(&tick, nondet!(/** verif */)).cross_singleton(snap).map(q!(|(r, c)| r as u64 * 100 + c as u64)).all_ticks().weakest_ordering()
+    r.batch(&tick, nondet!(/** verif */)).cross_singleton(snap).map(q!(|(r, c)| r as u64 * 100 + c as u64)).all_ticks().weaken_ordering::<NoOrder>()
 }
 
 pub fn tick_keyed_fold<'a>(w: In<'a>) -> Out<'a> {
@@ -312,7 +312,7 @@ pub fn tick_keyed_fold<'a>(w: In<'a>) -> Out<'a> {
         .entries()
         .map(q!(|(k, s)| k as u64 * 100 + s as u64))
         .all_ticks()
-        .weakest_ordering()
+        .weaken_ordering::<NoOrder>()
 }
 
 pub fn keyed_snapshot<'a>(w: In<'a>, r: In<'a>) -> Out<'a> {
@@ -322,7 +322,7 @@ pub fn keyed_snapshot<'a>(w: In<'a>, r: In<'a>) -> Out<'a> {
         let snap = use::snapshot(counts, nondet!(/** verif */));
         batch.join_keyed_singleton(snap).entries().map(q!(|(k, (v, c))| k as u64 * 1000 + v as u64 * 10 + c as u64))
     }
-    .weakest_ordering()
+    .weaken_ordering::<NoOrder>()
 }
 
 /// a tee feeding a tick and a top-level fold
@@ -330,7 +330,7 @@ pub fn tee_tick_and_top_level<'a>(w: In<'a>) -> Out<'a> {
     let tick = w.location().tick();
     let total = w.clone().fold(q!(|| 0u64), q!(|s: &mut u64, v: u32| *s += v as u64));
     let snap = total.snapshot(&tick, nondet!(/** verif */));
-    w.batch(&tick, nondet!(/** verif */)).cross_singleton(snap).map(q!(|(v, t)| v as u64 * 1000 + t)).all_ticks().weakest_ordering()
+    w.batch(&tick, nondet!(/** verif */)).cross_singleton(snap).map(q!(|(v, t)| v as u64 * 1000 + t)).all_ticks().weaken_ordering::<NoOrder>()
 }
 
 /// two ticks on one process, the second batching the first one's output
@@ -338,7 +338,7 @@ pub fn two_ticks_chain<'a>(w: In<'a>) -> Out<'a> {
     let t1 = w.location().tick();
     let t2 = w.location().tick();
     let first = w.batch(&t1, nondet!(/** verif */)).map(q!(|v| v + 1)).all_ticks();
-    first.batch(&t2, nondet!(/** verif */)).count().all_ticks().map(q!(|c| c as u64)).weakest_ordering()
+    first.batch(&t2, nondet!(/** verif */)).count().all_ticks().map(q!(|c| c as u64)).weaken_ordering::<NoOrder>()
 }
 
 /// forward reference at top level, completed later (no cycle)
@@ -348,7 +348,7 @@ pub fn forward_ref_top_level<'a>(w: In<'a>) -> Out<'a> {
     let (complete, fwd) = node.forward_ref::<Stream<u32, _, _>>();
     let out = fwd.batch(&tick, nondet!(/** verif */)).count().all_ticks();
     complete.complete(w.map(q!(|v| v + 1)));
-    out.map(q!(|c| c as u64)).weakest_ordering()
+    out.map(q!(|c| c as u64)).weaken_ordering::<NoOrder>()
 }
 
 /// forward reference to a singleton inside a tick (the shape of paxos's a_log)
@@ -358,7 +358,7 @@ pub fn forward_ref_in_tick<'a>(w: In<'a>) -> Out<'a> {
     let batch = w.batch(&tick, nondet!(/** verif */));
     let out = batch.clone().cross_singleton(fwd).map(q!(|(v, c)| v as u64 * 100 + c as u64)).all_ticks();
     complete.complete(batch.count());
-    out.weakest_ordering()
+    out.weaken_ordering::<NoOrder>()
 }
 
 /// forward reference to a singleton inside a tick, completed with an atomic snapshot
@@ -369,7 +369,7 @@ pub fn forward_ref_atomic_snapshot<'a>(w: In<'a>) -> Out<'a> {
     let out = batch.clone().cross_singleton(fwd).map(q!(|(v, c)| v as u64 * 100 + c as u64)).all_ticks();
     let seen = batch.all_ticks_atomic().count();
     complete.complete(seen.snapshot_atomic(&tick, nondet!(/** verif */)));
-    out.weakest_ordering()
+    out.weaken_ordering::<NoOrder>()
 }
 
 // ---- more than one location ---------------------------------------------------------------------
@@ -383,7 +383,7 @@ pub fn two_process_hop<'a>(w: In<'a>, peer: &Process<'a, Peer41>) -> Out<'a> {
         .map(q!(|v| v as u64 + 1))
         .all_ticks()
         .send(&home, TCP.fail_stop().bincode())
-        .weakest_ordering()
+        .weaken_ordering::<NoOrder>()
 }
 
 /// atomic region on the far side of a network hop, read by two ticks there
@@ -397,7 +397,7 @@ pub fn hop_then_atomic_2<'a>(w: In<'a>, r1: In<'a>, r2: In<'a>, peer: &Process<'
             batch.cross_singleton(snap).map(q!(|(r, c)| r as u64 * 100 + c as u64))
         }
         .send(&home, TCP.fail_stop().bincode())
-        .weakest_ordering()
+        .weaken_ordering::<NoOrder>()
     };
     read(r1, c.clone()).merge_unordered(read(r2, c))
 }
@@ -413,7 +413,7 @@ pub fn cluster_roundtrip<'a>(w: In<'a>, workers: &Cluster<'a, Worker41>) -> Out<
         .send(&home, TCP.fail_stop().bincode())
         .values()
         .map(q!(|c| c as u64))
-        .weakest_ordering()
+        .weaken_ordering::<NoOrder>()
 }
 
 /// an atomic region on every cluster member, read by two ticks per member
@@ -432,11 +432,11 @@ pub fn cluster_atomic_2<'a>(w: In<'a>, r: In<'a>, workers: &Cluster<'a, Worker41
         let snap = use::atomic(c, nondet!(/** verif */));
         b.cross_singleton(snap).map(q!(|(v, c)| 10_000 + v as u64 * 100 + c as u64))
     };
-    o1.weakest_ordering()
-        .merge_unordered(o2.weakest_ordering())
+    o1.weaken_ordering::<NoOrder>()
+        .merge_unordered(o2.weaken_ordering::<NoOrder>())
         .send(&home, TCP.fail_stop().bincode())
         .values()
-        .weakest_ordering()
+        .weaken_ordering::<NoOrder>()
 }
 
 // ---- wrappers around programs defined elsewhere (same u32 -> u64 interface) -----------------
@@ -447,26 +447,26 @@ type Ins<'a> = Stream<u32, Ps<'a>, Unbounded>;
 type Outs<'a> = Stream<u64, Ps<'a>, Unbounded, NoOrder>;
 
 pub fn slices_p1<'a>(w: Ins<'a>) -> Outs<'a> {
-    slices::batch_snapshot_state(w).map(q!(|(b, s, i, o)| b.len() as u64 * 1000 + s as u64 * 100 + i as u64 * 10 + o as u64)).weakest_ordering()
+    slices::batch_snapshot_state(w).map(q!(|(b, s, i, o)| b.len() as u64 * 1000 + s as u64 * 100 + i as u64 * 10 + o as u64)).weaken_ordering::<NoOrder>()
 }
 pub fn slices_p2<'a>(w: Ins<'a>) -> Outs<'a> {
-    slices::batch_state_null(w).map(q!(|(b, p, l)| b.len() as u64 * 10_000 + p as u64 * 100 + l as u64)).weakest_ordering()
+    slices::batch_state_null(w).map(q!(|(b, p, l)| b.len() as u64 * 10_000 + p as u64 * 100 + l as u64)).weaken_ordering::<NoOrder>()
 }
 pub fn slices_p3<'a>(w: Ins<'a>) -> Outs<'a> {
     let (ack, out) = slices::atomic_batch_count(w);
-    ack.map(q!(|v| v as u64)).weakest_ordering().merge_unordered(out.map(q!(|(b, c)| 1000 + b.len() as u64 * 10 + c as u64)).weakest_ordering())
+    ack.map(q!(|v| v as u64)).weaken_ordering::<NoOrder>().merge_unordered(out.map(q!(|(b, c)| 1000 + b.len() as u64 * 10 + c as u64)).weaken_ordering::<NoOrder>())
 }
 pub fn slices_p4<'a>(w: Ins<'a>) -> Outs<'a> {
-    slices::unordered_batch_snapshot_state(w.weakest_ordering()).map(q!(|(b, s, i, o)| b.len() as u64 * 1000 + s as u64 * 100 + i as u64 * 10 + o as u64)).weakest_ordering()
+    slices::unordered_batch_snapshot_state(w.weaken_ordering::<NoOrder>()).map(q!(|(b, s, i, o)| b.len() as u64 * 1000 + s as u64 * 100 + i as u64 * 10 + o as u64)).weaken_ordering::<NoOrder>()
 }
 pub fn slices_p5<'a>(a: Ins<'a>, b: Ins<'a>) -> Outs<'a> {
-    slices::two_batches_snapshot(a, b).map(q!(|(x, y, s)| x.len() as u64 * 100 + y.len() as u64 * 10 + s as u64)).weakest_ordering()
+    slices::two_batches_snapshot(a, b).map(q!(|(x, y, s)| x.len() as u64 * 100 + y.len() as u64 * 10 + s as u64)).weaken_ordering::<NoOrder>()
 }
 pub fn slices_p6<'a>(w: Ins<'a>) -> Outs<'a> {
-    slices::keyed_batch(w.map(q!(|v| (v % 2, v)))).map(q!(|r| r.len() as u64)).weakest_ordering()
+    slices::keyed_batch(w.map(q!(|v| (v % 2, v)))).map(q!(|r| r.len() as u64)).weaken_ordering::<NoOrder>()
 }
 pub fn slices_p7<'a>(w: Ins<'a>) -> Outs<'a> {
-    slices::atomic_batch_count_state(w).map(q!(|(b, c, p)| b.len() as u64 * 100 + c as u64 * 10 + p as u64)).weakest_ordering()
+    slices::atomic_batch_count_state(w).map(q!(|(b, c, p)| b.len() as u64 * 100 + c as u64 * 10 + p as u64)).weaken_ordering::<NoOrder>()
 }
 
 pub fn quorum_keys<'a>(w: In<'a>) -> Out<'a> {
@@ -475,7 +475,7 @@ pub fn quorum_keys<'a>(w: In<'a>) -> Out<'a> {
 }
 pub fn quorum_responses<'a>(w: In<'a>) -> Out<'a> {
     let (ok, err) = hydro_std::quorum::collect_quorum_with_response(w.map(q!(|v| (v % 2, if v % 3 == 0 { Err(v) } else { Ok(v) }))), 1, 2);
-    ok.map(q!(|(k, v)| k as u64 * 10 + v as u64)).weakest_ordering().merge_unordered(err.map(q!(|(k, e)| 100 + k as u64 * 10 + e as u64)))
+    ok.map(q!(|(k, v)| k as u64 * 10 + v as u64)).weaken_ordering::<NoOrder>().merge_unordered(err.map(q!(|(k, e)| 100 + k as u64 * 10 + e as u64)))
 }
 
 /// the repo's test wiring of hydro_std's join_responses (atomic metadata + slice state)
@@ -483,9 +483,9 @@ pub fn join_responses_wiring<'a>(meta: In<'a>, resp: In<'a>) -> Out<'a> {
     let tick = meta.location().tick();
     let processing = meta.map(q!(|v| (v, v * 10))).atomic();
     let ack = processing.clone().end_atomic();
-    let metadata = processing.batch_atomic(&tick, nondet!(/** as in the repo's tests */)).weakest_ordering();
-    let joined = hydro_std::request_response::join_responses(resp.map(q!(|v| (v, v + 100))).weakest_ordering(), metadata);
-    ack.map(q!(|(k, _)| k as u64)).weakest_ordering().merge_unordered(joined.map(q!(|(k, (m, r))| 1000 + k as u64 * 100 + m as u64 + r as u64)))
+    let metadata = processing.batch_atomic(&tick, nondet!(/** as in the repo's tests */)).weaken_ordering::<NoOrder>();
+    let joined = hydro_std::request_response::join_responses(resp.map(q!(|v| (v, v + 100))).weaken_ordering::<NoOrder>(), metadata);
+    ack.map(q!(|(k, _)| k as u64)).weaken_ordering::<NoOrder>().merge_unordered(joined.map(q!(|(k, (m, r))| 1000 + k as u64 * 100 + m as u64 + r as u64)))
 }
 
 /// paxos's index_payloads (state + atomic Optional + atomic stream, yield_atomic, batch_atomic)
@@ -494,5 +494,5 @@ pub fn paxos_index_payloads<'a>(w: In<'a>) -> Out<'a> {
     hydro_test::cluster::paxos::index_payloads(tick.none(), w.batch(&tick, nondet!(/** as in the repo's test */)))
         .all_ticks()
         .map(q!(|(slot, v)| slot as u64 * 100 + v as u64))
-        .weakest_ordering()
+        .weaken_ordering::<NoOrder>()
 }
